@@ -111,7 +111,7 @@ def bootstrap():
     os.makedirs(home)
     os.environ["HOME"] = home
     for k in list(os.environ):
-        if k.startswith("CCV7_"):
+        if "CCV7" in k:
             del os.environ[k]
     if "cincoconfig" in sys.modules:
         raise HarnessError("cincoconfig imported before bootstrap")
@@ -269,7 +269,7 @@ def _run_one(args):
 
 def _clean_env():
     for k in list(os.environ):
-        if k.startswith("CCV7_"):
+        if "CCV7" in k:
             del os.environ[k]
 
 
